@@ -353,14 +353,22 @@ def leave (r : Realm) (k : SessKey) (mode : LeaveMode) : Realm :=
 def mErr (req : Nat) (uri : String) : Msg := .error tINVOCATION req [] uri [] []
 def mYield (req : Nat) (args : List WVal) (kw : Dict := []) : Msg := .yield req [] args kw
 
-/-- `cleanSessionDetails` (transport details are not modelled: the harness attaches none) -/
+/-- `cleanSessionDetails`: in strict mode only the standard keys and the configured extras;
+    `transport.auth` (when `transport` and `auth` are dicts) is never shown. -/
 def cleanDetails (r : Realm) (details : Dict) : Dict :=
-  if r.cfg.metaStrict then
-    let std := ["session", "authid", "authrole", "authmethod", "authprovider", "transport"]
-    (std ++ r.cfg.metaInc).foldl (fun acc k => match details.get? k with
-      | some v => acc.set k v
-      | none => acc) []
-  else details
+  let clean : Dict :=
+    if r.cfg.metaStrict then
+      let std := ["session", "authid", "authrole", "authmethod", "authprovider", "transport"]
+      (std ++ r.cfg.metaInc).foldl (fun acc k => match details.get? k with
+        | some v => acc.set k v
+        | none => acc) []
+    else details
+  match details.get? "transport" with
+  | some (.dict t) =>
+    match Dict.get? t "auth" with
+    | some (WVal.dict _) => clean.set "transport" (.dict (Dict.erase t "auth"))
+    | _ => clean
+  | _ => clean
 
 def strList? (v : WVal) : Option (List String) :=
   match v.asList with
